@@ -543,4 +543,185 @@ theorem ema_adjusted_eq (k : Kind) (β : Rat) (hβ : 0 ≤ β) (vals : List FVal
   simp only [r, ema_adjusted, hb, rangeI_natCast]
   exact hcells i hi hvalid
 
+/-! ### the ungrouped `_ema_time_weighted` -/
+
+/-- running state of a single timed series -/
+def runTE (decay : Int → Rat) (rows : List (Int × Option Rat)) : ESt := rows.foldl (emaStepTimed decay) eInit
+
+theorem runTE_snoc (decay : Int → Rat) (rows : List (Int × Option Rat)) (t : Nat) (ht : t < rows.length) :
+    runTE decay (rows.take (t + 1)) = emaStepTimed decay (runTE decay (rows.take t)) rows[t] := by
+  unfold runTE
+  rw [List.take_succ_eq_append_getElem ht, List.foldl_append]
+  rfl
+
+structure TwInv (decay : Int → Rat) (rows : List (Int × Option Rat)) (t : Nat) (st : Ema_time_weighted_loop1St) : Prop where
+  hr : st.residual = .q (runTE decay (rows.take t)).r
+  hw : st.residual_weights = .q (runTE decay (rows.take t)).w
+  hw0 : 0 ≤ (runTE decay (rows.take t)).w
+  hlast : st.out' ((t : Int) - 1) = optF (runTE decay (rows.take t)).last
+  hT : ∀ (h : 0 < t) (ht : t - 1 < rows.length), (runTE decay (rows.take t)).lastT = some rows[t - 1].1
+
+theorem tw_step (k : Kind) (ln2 : FVal) (expf : FVal → FVal) (halflife : Int) (decay : Int → Rat)
+    (hdec : ∀ d : Int, expf (FVal.mul (FVal.neg ln2) (FVal.divII d halflife)) = .q (decay d))
+    (hdec0 : ∀ d : Int, 0 ≤ decay d)
+    (vals : List FVal) (times : List Int) (hlen : vals.length = times.length) (rows : List (Int × Option Rat))
+    (hrows : rows = (List.range vals.length).map fun i => (times.getD i 0, obsOf (vals.getD i .nan) false))
+    (t : Nat) (ht1 : 0 < t) (ht : t < vals.length) (st : Ema_time_weighted_loop1St) (h : TwInv decay rows t st) :
+    let st' := ema_time_weighted_loop1_step k ln2 expf vals.length (arrOf vals .nan) times.length (arrOf times 0) halflife
+      vals.length st (t : Int)
+    TwInv decay rows (t + 1) st' ∧ (∀ j : Int, j ≠ (t : Int) → st'.out' j = st.out' j) ∧
+      st'.out' (t : Int) = optF (emaOutTimed decay (runTE decay (rows.take t)) (rows.getD t (0, none))) := by
+  obtain ⟨sr, sw, so⟩ := st
+  obtain ⟨hr, hw, hw0, hlast, hT⟩ := h
+  simp only at hr hw hw0 hlast hT
+  have hrl : rows.length = vals.length := by rw [hrows]; simp
+  have htx : t < rows.length := by omega
+  have hrow : rows[t] = (times.getD t 0, obsOf (vals.getD t .nan) false) := by
+    subst hrows; simp
+  have hprev : rows[t - 1]'(by omega) = (times.getD (t - 1) 0, obsOf (vals.getD (t - 1) .nan) false) := by
+    subst hrows; simp
+  have hgd : rows.getD t (0, none) = rows[t] := by
+    rw [List.getD_eq_getElem?_getD, List.getElem?_eq_getElem htx]; rfl
+  have hlastT := hT ht1 (by omega)
+  rw [hprev] at hlastT
+  intro st'
+  have e1 : (1 : Int) + ((t : Int) - 1) = (t : Int) := by omega
+  have e2 : normI (times.length : Int) ((t : Int) - 1) = (((t - 1 : Nat)) : Int) := by
+    rw [normI_nonneg _ _ (by omega)]; omega
+  have e3 : normI (vals.length : Int) ((t : Int) - 1) = (t : Int) - 1 := normI_nonneg _ _ (by omega)
+  simp only at hlastT
+  simp only [st', ema_time_weighted_loop1_step, e1, normI_natCast, arrOf_natCast, e2, e3, hr, hw, hdec]
+  simp only [FVal.mul]
+  -- the decayed state of the model
+  have hdcy : decayed decay (runTE decay (rows.take t)) (times.getD t 0) =
+      { runTE decay (rows.take t) with
+        r := (runTE decay (rows.take t)).r * decay (times.getD t 0 - times.getD (t - 1) 0),
+        w := (runTE decay (rows.take t)).w * decay (times.getD t 0 - times.getD (t - 1) 0) } := by
+    simp only [decayed, hlastT]
+  generalize hd : decay (times.getD t 0 - times.getD (t - 1) 0) = dd at *
+  have hdd0 : 0 ≤ dd := by rw [← hd]; exact hdec0 _
+  have hw0' : 0 ≤ (runTE decay (rows.take t)).w * dd := Rat.mul_nonneg hw0 hdd0
+  have h1w : ¬ ((1 : Rat) + (runTE decay (rows.take t)).w * dd = 0) := by intro h; linarith
+  have hcast : ((1 : Int) : Rat) = 1 := by simp
+  cases hv : vals.getD t .nan with
+  | nan =>
+    have hxn : rows[t] = (times.getD t 0, none) := by rw [hrow, hv]; rfl
+    have hisn : FVal.isNan FVal.nan = true := rfl
+    simp only [hisn, if_true]
+    refine ⟨⟨?_, ?_, ?_, ?_, ?_⟩, fun j hj => by simp [aset_apply, hj], ?_⟩
+    · rw [runTE_snoc decay rows t htx, hxn]; simp only [emaStepTimed, hdcy]
+    · rw [runTE_snoc decay rows t htx, hxn]; simp only [emaStepTimed, hdcy]
+    · rw [runTE_snoc decay rows t htx, hxn]; simp only [emaStepTimed, hdcy]; exact hw0'
+    · have e4 : ((t + 1 : Nat) : Int) - 1 = (t : Int) := by omega
+      rw [e4]
+      show aset so (t : Int) _ (t : Int) = _
+      rw [aset_same, hlast, runTE_snoc decay rows t htx, hxn]; simp only [emaStepTimed, hdcy]
+    · intro _ _
+      simp only [Nat.add_sub_cancel]
+      rw [runTE_snoc decay rows t htx, hxn]; simp only [emaStepTimed, hdcy]
+    · show aset so (t : Int) _ (t : Int) = _
+      rw [aset_same, hlast, hgd, hxn]; simp only [emaOutTimed, emaOut, hdcy]
+  | q v =>
+    have hxn : rows[t] = (times.getD t 0, some v) := by rw [hrow, hv]; rfl
+    have hisq : FVal.isNan (FVal.q v) = false := rfl
+    simp only [hisq, Bool.false_eq_true, if_false, FVal.add, FVal.div, FVal.ofInt, hcast, h1w]
+    refine ⟨⟨?_, ?_, ?_, ?_, ?_⟩, fun j hj => by simp [aset_apply, hj], ?_⟩
+    · rw [runTE_snoc decay rows t htx, hxn]; simp only [emaStepTimed, hdcy]
+    · rw [runTE_snoc decay rows t htx, hxn]; simp only [emaStepTimed, hdcy]
+    · rw [runTE_snoc decay rows t htx, hxn]; simp only [emaStepTimed, hdcy]
+      exact Rat.add_nonneg hw0' (by decide)
+    · have e4 : ((t + 1 : Nat) : Int) - 1 = (t : Int) := by omega
+      rw [e4]
+      show aset so (t : Int) _ (t : Int) = _
+      rw [aset_same, runTE_snoc decay rows t htx, hxn]; simp only [emaStepTimed, hdcy, optF]
+    · intro _ _
+      simp only [Nat.add_sub_cancel]
+      rw [runTE_snoc decay rows t htx, hxn]; simp only [emaStepTimed, hdcy]
+    · show aset so (t : Int) _ (t : Int) = _
+      rw [aset_same, hgd, hxn]; simp only [emaOutTimed, emaOut, hdcy, optF]
+
+/-- **the ungrouped `_ema_time_weighted` is the single-series time-weighted model at every row** (a leading NaN gives
+NaN, as in the grouped kernel) -/
+theorem ema_time_weighted_eq (k : Kind) (ln2 : FVal) (expf : FVal → FVal) (halflife : Int) (decay : Int → Rat)
+    (hdec : ∀ d : Int, expf (FVal.mul (FVal.neg ln2) (FVal.divII d halflife)) = .q (decay d))
+    (hdec0 : ∀ d : Int, 0 ≤ decay d)
+    (vals : List FVal) (times : List Int) (hlen : vals.length = times.length) (hne : 0 < vals.length)
+    (i : Nat) (hi : i < vals.length) :
+    let rows := (List.range vals.length).map fun i => (times.getD i 0, obsOf (vals.getD i .nan) false)
+    let r := ema_time_weighted k ln2 expf vals.length (arrOf vals .nan) times.length (arrOf times 0) halflife
+    r.2 = false ∧ r.1 (i : Int) = optF (emaOutTimed decay (runTE decay (rows.take i)) (rows.getD i (0, none))) := by
+  intro rows r
+  have hrl : rows.length = vals.length := by simp [rows]
+  obtain ⟨v0, hv0⟩ : ∃ v0, vals.getD 0 .nan = v0 := ⟨_, rfl⟩
+  have hrow0 : rows[0]'(by omega) = (times.getD 0 0, obsOf v0 false) := by simp [rows, ← hv0]
+  have e0 : arrOf vals FVal.nan (normI (vals.length : Int) 0) = v0 := by
+    rw [normI_nonneg _ _ (Int.le_refl 0), ← hv0]; simp [arrOf]
+  have hgd0 : rows.getD 0 (0, none) = rows[0]'(by omega) := by
+    rw [List.getD_eq_getElem?_getD, List.getElem?_eq_getElem (by omega)]; rfl
+  have hsn : runTE decay (rows.take 1) = emaStepTimed decay eInit (rows[0]'(by omega)) := by
+    have := runTE_snoc decay rows 0 (by omega)
+    simpa [runTE] using this
+  -- the state after row 0
+  let st0 : Ema_time_weighted_loop1St :=
+    ⟨if FVal.isNan v0 then .ofInt 0 else v0, if FVal.isNan v0 then .ofInt 0 else .ofInt 1,
+     if FVal.isNan v0 then aset (fun _ => FVal.ofInt 0) 0 FVal.nan else aset (fun _ => FVal.ofInt 0) 0 v0⟩
+  have hcell0 : st0.out' 0 = optF (emaOutTimed decay (runTE decay (rows.take 0)) (rows.getD 0 (0, none))) := by
+    rw [hgd0, hrow0]
+    cases v0 with
+    | nan => simp [st0, FVal.isNan, runTE, eInit, emaOutTimed, emaOut, decayed, obsOf, optF]
+    | q v => simp [st0, FVal.isNan, runTE, eInit, emaOutTimed, emaOut, decayed, obsOf, optF]
+  have hinv0 : TwInv decay rows 1 st0 := by
+    rw [hrow0] at hsn
+    cases v0 with
+    | nan =>
+      simp only [obsOf] at hsn
+      refine ⟨?_, ?_, ?_, ?_, ?_⟩ <;>
+        simp [st0, FVal.isNan, hsn, emaStepTimed, decayed, eInit, FVal.ofInt, optF, hrow0]
+    | q v =>
+      simp only [obsOf, Bool.false_eq_true, if_false] at hsn
+      refine ⟨?_, ?_, ?_, ?_, ?_⟩ <;>
+        simp [st0, FVal.isNan, hsn, emaStepTimed, decayed, eInit, FVal.ofInt, optF, hrow0]
+  -- the loop over rows 1 .. n-1
+  have key : ∀ m : Nat, m + 1 ≤ vals.length →
+      let st := ((List.range m).map (fun j : Nat => (1 : Int) + (j : Int))).foldl
+        (ema_time_weighted_loop1_step k ln2 expf vals.length (arrOf vals .nan) times.length (arrOf times 0) halflife vals.length) st0
+      TwInv decay rows (m + 1) st ∧ ∀ j, j < m + 1 →
+        st.out' (j : Int) = optF (emaOutTimed decay (runTE decay (rows.take j)) (rows.getD j (0, none))) := by
+    intro m
+    induction m with
+    | zero =>
+      intro _ st
+      refine ⟨hinv0, fun j hj => ?_⟩
+      have : j = 0 := by omega
+      subst this
+      exact hcell0
+    | succ m ih =>
+      intro hm st
+      obtain ⟨hinv, hcells⟩ := ih (by omega)
+      have hstep := tw_step k ln2 expf halflife decay hdec hdec0 vals times hlen rows rfl (m + 1) (by omega) (by omega) _ hinv
+      obtain ⟨hinv', hother, hcell⟩ := hstep
+      have ecast : (1 : Int) + (m : Int) = ((m + 1 : Nat) : Int) := by omega
+      simp only [st, List.range_succ, List.map_append, List.foldl_append, List.map_cons, List.map_nil, List.foldl_cons,
+        List.foldl_nil, ecast]
+      refine ⟨hinv', fun j hj => ?_⟩
+      by_cases e : j = m + 1
+      · subst e; exact hcell
+      · rw [hother (j : Int) (by omega)]
+        exact hcells j (by omega)
+  obtain ⟨_, hcells⟩ := key (vals.length - 1) (by omega)
+  refine ⟨by simp [r, ema_time_weighted], ?_⟩
+  have hrange : rangeI2 (1 : Int) (vals.length : Int) = (List.range (vals.length - 1)).map (fun j : Nat => (1 : Int) + (j : Int)) := by
+    unfold rangeI2
+    have : ((vals.length : Int) - 1).toNat = vals.length - 1 := by omega
+    rw [this]
+    apply List.map_congr_left
+    intro j _
+    simp
+  have e0' : arrOf vals FVal.nan 0 = v0 := by rw [← hv0]; simp [arrOf]
+  simp only [r, ema_time_weighted, hrange, normI_nonneg _ _ (Int.le_refl 0), e0']
+  have hcell := hcells i (by omega)
+  cases v0 with
+  | nan => simpa [st0, FVal.isNan] using hcell
+  | q v => simpa [st0, FVal.isNan] using hcell
+
 end GV.LoopBridge
